@@ -5,6 +5,7 @@ import (
 	"fmt"
 	"os"
 	"runtime"
+	"sort"
 	"strconv"
 	"strings"
 	"testing"
@@ -373,11 +374,16 @@ func watchdog(outPath string, limit int) {
 		}
 		dump := allStacks()
 		s2 := spinning(dump)
+		var common []string
 		for fn := range s1 {
-			if s2[fn] {
-				os.WriteFile(outPath+".spin", []byte(fn+"\n"+dump), 0o644)
-				os.Exit(3)
+			if s2[fn] && !strings.Contains(fn, "server.(*DefaultServer).Loop") && !strings.Contains(fn, "ListenAndServe") {
+				common = append(common, fn)
 			}
+		}
+		if len(common) > 0 {
+			sort.Strings(common)
+			os.WriteFile(outPath+".spin", []byte(common[0]+"\n"+dump), 0o644)
+			os.Exit(3)
 		}
 		os.WriteFile(outPath+".stall", []byte(dump), 0o644)
 		os.Exit(4)
@@ -389,8 +395,8 @@ func allStacks() string {
 	return string(buf[:runtime.Stack(buf, true)])
 }
 
-// spinning returns the innermost repository functions of goroutines that are
-// running or runnable (i.e. not blocked).
+// spinning returns every repository function on the stack of goroutines that are
+// running or runnable (i.e. not blocked), mapped to its depth (0 = innermost).
 func spinning(dump string) map[string]bool {
 	out := map[string]bool{}
 	for _, g := range strings.Split(dump, "\n\n") {
@@ -405,7 +411,6 @@ func spinning(dump string) map[string]bool {
 					fn = fn[:i]
 				}
 				out[fn] = true
-				break
 			}
 		}
 	}
